@@ -77,33 +77,28 @@ pub fn io_write_def<S: Src, const BIG: bool>(s: &mut S) {
     crate::cover!(s, l == 1, "one byte");
 }
 
-/// decoders: vbyte_read_* and the generic entry point invert the encoders (whose bytes are the definition's,
-/// by c18_io_write_*) and consume exactly the codeword
-pub fn io_read_def<S: Src, const BIG: bool>(s: &mut S) {
-    let v = s.u64();
-    let mut sink = FixedSink { bytes: [0; 12], n: 0 };
-    let n = if BIG { ok(vbyte_write_be(v, &mut sink)) } else { ok(vbyte_write_le(v, &mut sink)) };
-    assert!(n.is_some());
-    let l = sink.n;
-    let generic = s.bool();
-    let mut src = FixedSource { bytes: sink.bytes, len: l, pos: 0 };
-    let back = match (BIG, generic) {
-        (true, false) => ok(vbyte_read_be(&mut src)),
-        (false, false) => ok(vbyte_read_le(&mut src)),
-        (true, true) => ok(vbyte_read::<BE, _>(&mut src)),
-        (false, true) => ok(vbyte_read::<LE, _>(&mut src)),
-    };
-    assert!(back == Some(v), "vbyte_read does not invert the encoding");
-    assert_eq!(src.pos, l, "decoder consumed exactly the codeword");
-    crate::cover!(s, l == 10, "ten bytes");
-    crate::cover!(s, generic && l == 2, "generic entry point");
+/// generic decoder entry points select the variant named by their endianness parameter: on an arbitrary
+/// terminated string of up to 3 bytes, vbyte_read::<E> equals vbyte_read_be / vbyte_read_le (decoding
+/// itself is decided by the completeness harnesses below)
+pub fn generic_read_select<S: Src>(s: &mut S) {
+    let mut bytes = [0u8; 12];
+    bytes[0] = s.u8();
+    bytes[1] = s.u8();
+    bytes[2] = s.u8() & 0x7f;
+    let mut a = FixedSource { bytes, len: 3, pos: 0 };
+    let mut b = FixedSource { bytes, len: 3, pos: 0 };
+    let big = s.bool();
+    let (x, y) = if big { (ok(vbyte_read::<BE, _>(&mut a)), ok(vbyte_read_be(&mut b))) } else { (ok(vbyte_read::<LE, _>(&mut a)), ok(vbyte_read_le(&mut b))) };
+    assert!(x.is_some() && x == y && a.pos == b.pos, "vbyte_read::<E> selects the wrong variant");
+    crate::cover!(s, a.pos == 3, "three bytes");
+    crate::cover!(s, big && a.pos == 2, "two bytes, big-endian variant");
 }
 
 /// completeness: every terminated byte string of L bytes whose value fits in 64 bits is the encoding
 /// of exactly one value; decoding gives it and re-encoding reproduces the string
-pub fn completeness<S: Src, const BIG: bool>(s: &mut S) {
+pub fn completeness<S: Src, const BIG: bool, const L: usize>(s: &mut S) {
     let mut b = any_array::<u8, S, 10>(s);
-    let l = s.usize_in(1, 10);
+    let l = L;
     let j = s.usize();
     s.assume(j < l);
     // continuation bit on all but the last byte
@@ -143,8 +138,7 @@ pub fn completeness<S: Src, const BIG: bool>(s: &mut S) {
     let n = if BIG { ok(vbyte_write_be(val as u64, &mut sink)) } else { ok(vbyte_write_le(val as u64, &mut sink)) };
     assert!(n == Some(l), "re-encoding has a different length: the string is not the unique encoding");
     assert_eq!(sink.bytes[j], b[j], "re-encoding does not reproduce the string");
-    crate::cover!(s, l == 10, "ten bytes");
-    crate::cover!(s, l == 3, "three bytes");
+    crate::cover!(s, val > 0, "non-zero value");
 }
 
 crate::harnesses! {
@@ -152,12 +146,46 @@ crate::harnesses! {
     c18_io_write_be (quick, "vbyte_write_be / vbyte_write::<BE>", "any u64 value") => io_write_def::<_, true>;
     #[kani::unwind(12)]
     c18_io_write_le (quick, "vbyte_write_le / vbyte_write::<LE>", "any u64 value") => io_write_def::<_, false>;
+    #[kani::unwind(6)]
+    c18_generic_read (quick, "vbyte_read::<BE> / vbyte_read::<LE> vs vbyte_read_be / vbyte_read_le", "any terminated byte string of <= 3 bytes") => generic_read_select;
     #[kani::unwind(12)]
-    c18_io_read_be (quick, "vbyte_read_be / vbyte_read::<BE>", "any u64 value (bytes of the definition)") => io_read_def::<_, true>;
+    c18_complete_be_l1 (quick, "VByteBe completeness, strings of 1 byte(s)", "every terminated byte string of 1 byte(s) with value <= 2^64-1: decodes to its value, re-encodes to itself") => completeness::<_, true, 1>;
     #[kani::unwind(12)]
-    c18_io_read_le (quick, "vbyte_read_le / vbyte_read::<LE>", "any u64 value (bytes of the definition)") => io_read_def::<_, false>;
+    c18_complete_be_l2 (quick, "VByteBe completeness, strings of 2 byte(s)", "every terminated byte string of 2 byte(s) with value <= 2^64-1: decodes to its value, re-encodes to itself") => completeness::<_, true, 2>;
     #[kani::unwind(12)]
-    c18_complete_be (quick, "VByteBe completeness", "every terminated byte string of 1..=10 bytes with value <= 2^64-1") => completeness::<_, true>;
+    c18_complete_be_l3 (quick, "VByteBe completeness, strings of 3 byte(s)", "every terminated byte string of 3 byte(s) with value <= 2^64-1: decodes to its value, re-encodes to itself") => completeness::<_, true, 3>;
     #[kani::unwind(12)]
-    c18_complete_le (quick, "VByteLe completeness", "every terminated byte string of 1..=10 bytes with value <= 2^64-1") => completeness::<_, false>;
+    c18_complete_be_l4 (quick, "VByteBe completeness, strings of 4 byte(s)", "every terminated byte string of 4 byte(s) with value <= 2^64-1: decodes to its value, re-encodes to itself") => completeness::<_, true, 4>;
+    #[kani::unwind(12)]
+    c18_complete_be_l5 (quick, "VByteBe completeness, strings of 5 byte(s)", "every terminated byte string of 5 byte(s) with value <= 2^64-1: decodes to its value, re-encodes to itself") => completeness::<_, true, 5>;
+    #[kani::unwind(12)]
+    c18_complete_be_l6 (quick, "VByteBe completeness, strings of 6 byte(s)", "every terminated byte string of 6 byte(s) with value <= 2^64-1: decodes to its value, re-encodes to itself") => completeness::<_, true, 6>;
+    #[kani::unwind(12)]
+    c18_complete_be_l7 (quick, "VByteBe completeness, strings of 7 byte(s)", "every terminated byte string of 7 byte(s) with value <= 2^64-1: decodes to its value, re-encodes to itself") => completeness::<_, true, 7>;
+    #[kani::unwind(12)]
+    c18_complete_be_l8 (quick, "VByteBe completeness, strings of 8 byte(s)", "every terminated byte string of 8 byte(s) with value <= 2^64-1: decodes to its value, re-encodes to itself") => completeness::<_, true, 8>;
+    #[kani::unwind(12)]
+    c18_complete_be_l9 (quick, "VByteBe completeness, strings of 9 byte(s)", "every terminated byte string of 9 byte(s) with value <= 2^64-1: decodes to its value, re-encodes to itself") => completeness::<_, true, 9>;
+    #[kani::unwind(12)]
+    c18_complete_be_l10 (quick, "VByteBe completeness, strings of 10 byte(s)", "every terminated byte string of 10 byte(s) with value <= 2^64-1: decodes to its value, re-encodes to itself") => completeness::<_, true, 10>;
+    #[kani::unwind(12)]
+    c18_complete_le_l1 (quick, "VByteLe completeness, strings of 1 byte(s)", "every terminated byte string of 1 byte(s) with value <= 2^64-1: decodes to its value, re-encodes to itself") => completeness::<_, false, 1>;
+    #[kani::unwind(12)]
+    c18_complete_le_l2 (quick, "VByteLe completeness, strings of 2 byte(s)", "every terminated byte string of 2 byte(s) with value <= 2^64-1: decodes to its value, re-encodes to itself") => completeness::<_, false, 2>;
+    #[kani::unwind(12)]
+    c18_complete_le_l3 (quick, "VByteLe completeness, strings of 3 byte(s)", "every terminated byte string of 3 byte(s) with value <= 2^64-1: decodes to its value, re-encodes to itself") => completeness::<_, false, 3>;
+    #[kani::unwind(12)]
+    c18_complete_le_l4 (quick, "VByteLe completeness, strings of 4 byte(s)", "every terminated byte string of 4 byte(s) with value <= 2^64-1: decodes to its value, re-encodes to itself") => completeness::<_, false, 4>;
+    #[kani::unwind(12)]
+    c18_complete_le_l5 (quick, "VByteLe completeness, strings of 5 byte(s)", "every terminated byte string of 5 byte(s) with value <= 2^64-1: decodes to its value, re-encodes to itself") => completeness::<_, false, 5>;
+    #[kani::unwind(12)]
+    c18_complete_le_l6 (quick, "VByteLe completeness, strings of 6 byte(s)", "every terminated byte string of 6 byte(s) with value <= 2^64-1: decodes to its value, re-encodes to itself") => completeness::<_, false, 6>;
+    #[kani::unwind(12)]
+    c18_complete_le_l7 (quick, "VByteLe completeness, strings of 7 byte(s)", "every terminated byte string of 7 byte(s) with value <= 2^64-1: decodes to its value, re-encodes to itself") => completeness::<_, false, 7>;
+    #[kani::unwind(12)]
+    c18_complete_le_l8 (quick, "VByteLe completeness, strings of 8 byte(s)", "every terminated byte string of 8 byte(s) with value <= 2^64-1: decodes to its value, re-encodes to itself") => completeness::<_, false, 8>;
+    #[kani::unwind(12)]
+    c18_complete_le_l9 (quick, "VByteLe completeness, strings of 9 byte(s)", "every terminated byte string of 9 byte(s) with value <= 2^64-1: decodes to its value, re-encodes to itself") => completeness::<_, false, 9>;
+    #[kani::unwind(12)]
+    c18_complete_le_l10 (quick, "VByteLe completeness, strings of 10 byte(s)", "every terminated byte string of 10 byte(s) with value <= 2^64-1: decodes to its value, re-encodes to itself") => completeness::<_, false, 10>;
 }
